@@ -369,6 +369,8 @@ LOOKUPS = [   # formulas put into table B (columns k Text, q Int); A is the look
   "[r.id for r in A.lookupRecords(m=$q)]",
   "[r.id for r in A.lookupRecords(m=$k, order_by='-n')]",
   "[r.id for r in A.lookupRecords(kf=$k, order_by='n')]",
+  "[r.id for r in A.lookupRecords(m=$k)]",
+  "A.lookupOne(m=$q, order_by='-n').id",
   "A.lookupOne(k=$k).id",
   "A.lookupOne(k=$k, order_by='-n').id",
   "A.lookupOne(k=$k, order_by=None).id",
@@ -400,7 +402,7 @@ gen.SEEDS["c13_lookups"] = [
      "tags": [["L", "a"], ["L", "a", "b"], None, ["L", "c"], ["L"]],
      "r": [1, 2, 1, 0, 3], "rl": [["L", 1, 2], ["L", 3], None, ["L", 2], ["L", 1]]}]],
   [["AddColumn", "B", "l1", {"type": "Any", "isFormula": True, "formula": LOOKUPS[1]}],
-   ["AddColumn", "B", "l2", {"type": "Any", "isFormula": True, "formula": LOOKUPS[26]}],
+   ["AddColumn", "B", "l2", {"type": "Any", "isFormula": True, "formula": "[r.id for r in A.lookupRecords(tags=CONTAINS($k))]"}],
    ["AddColumn", "B", "l3", {"type": "Any", "isFormula": True, "formula": LOOKUPS[5]}]],
   # shuffle manualSort so that it differs from row-id order
   [["BulkUpdateRecord", "A", [1, 2, 3, 4, 5], {"manualSort": [5.0, 4.0, 3.0, 2.0, 1.0]}]],
@@ -409,7 +411,7 @@ gen.SEEDS["c13_lookups"] = [
 A_VALUES = {
   "k": ["a", "b", "c", "z", "", None, 1],
   "n": [1, 2, 3, 4, None, "x", 2.5],
-  "m": [1, 2.5, "a", None, True, 0],
+  "m": [1, 2.5, "a", None, True, 0, ["L", "a", "w"], ["L", 1], "a", 1],
   "tags": [None, ["L"], ["L", "a"], ["L", "a", "b"], ["L", "b", "c"], ["L", "z", ""], "a"],
   "r": [0, 1, 2, 3, 4, "a"],
   "rl": [None, ["L"], ["L", 1], ["L", 2, 1], ["L", 3, 4], ["L", 1, 1]],
@@ -568,6 +570,29 @@ def _small_call(a):
     count += sweep()
     eng.apply(e, [["AddRecord", "A", None, {"k": "a", "n": 1}]])
     count += sweep()
+    # an untyped (Any) key column, data and formula: values move between hashable and list
+    # (unhashable) and back; a row must leave its old key when its value stops being hashable
+    rows = list(tbl.row_ids)
+    eng.apply(e, [["AddColumn", "A", "x", {"type": "Any", "isFormula": False}],
+                  ["AddColumn", "A", "xf", {"type": "Any", "isFormula": True,
+                                            "formula": "[$k, 'w'] if $n == 7 else $k"}]])
+    eng.apply(e, [["BulkUpdateRecord", "A", rows, {"x": [tbl.get_column("k").raw_get(r) for r in rows]}]])
+    def sweep_any():
+      c = 0
+      for col in ("x", "xf"):
+        for key in ("a", "b"):
+          for order in (dict(), dict(order_by="-n"), dict(order_by=None)):
+            kw = {col: key}; kw.update(order)
+            tbl.lookup_records(**kw); tbl.lookup_one_record(**kw); c += 1
+      return c
+    count += sweep_any()
+    r0 = rows[0]
+    eng.apply(e, [["UpdateRecord", "A", r0, {"x": ["L", "a", "w"], "n": 7}]])   # x, xf become lists
+    count += sweep_any()
+    eng.apply(e, [["UpdateRecord", "A", rows[-1], {"x": "a"}]])                  # unrelated edit
+    count += sweep_any()
+    eng.apply(e, [["UpdateRecord", "A", r0, {"x": "b", "n": 1}]])               # hashable again
+    count += sweep_any()
   viol = S["viol"][before:]
   del S["viol"][before:]
   return dict(lookups=count, viol=viol)
@@ -582,7 +607,9 @@ def main():
     "bounded: the post-condition is evaluated on the real Table.lookup_records at every call made "
     "during seeded random histories (seed documents c13_lookups, lookup, summary, prevnext, refs) "
     "and exhaustively for all tables A(k Text, n Int) of <= 3 rows over 5 cell pairs x all "
-    "manualSort permutations x 7 key sets x 12 order specifications x 6 edit stages; not a proof",
+    "manualSort permutations x 7 key sets x 12 order specifications x 6 edit stages, followed by "
+    "4 stages on an untyped (Any) data column and an Any formula column whose values move between "
+    "hashable values and lists (2 columns x 2 keys x 3 orders each); not a proof",
     "the rich value of a cell / the type-converted key are obtained with Column._convert_raw_value "
     "and Column.convert (trusted here; C22 covers conversion); a cell holding an error has no value "
     "and matches no key; calls with a NaN or unhashable key, and the ORDER of results whose sort "
@@ -635,7 +662,7 @@ def main():
   cov["unspecified"] = tot.get("unspecified", 0)
   cov["order_unspecified"] = tot.get("unordered", 0)
   per_sweep = 2 * len(KEYS) * len(ORDERS)      # lookup_records + lookup_one_record
-  cov["evaluations"] = (max(0, n_small - 1) * 6 * per_sweep + per_sweep + tot.get("n_lookup", 0) +
+  cov["evaluations"] = (max(0, n_small - 1) * (6 * per_sweep + 4 * 24) + per_sweep + tot.get("n_lookup", 0) +
                         tot.get("n_one", 0) + tot.get("n_twm", 0))
   cov["distinct_nontrivial"] = tot.get("nontrivial", 0) + n_small
   cov["samples"] = (cov.get("samples", [])[:2] + tot.get("samples", [])[:2])
